@@ -668,7 +668,7 @@ pub fn property() -> Property {
         id: "C06",
         run,
         budget: |t| match t {
-            Tier::Quick => 3000,
+            Tier::Quick => 6000,
             Tier::Thorough => 300_000,
         },
         wall_cap_s: |t| match t {
